@@ -409,10 +409,226 @@ def replay(what, pattern, folders, opts, witness, targets=None, by_path=False):
 QUICK_EXTRA = [("fdff", [2, 1], {}), ("ff", [1, 1], {"packpos": True})]
 
 
+# ------------------------------------------------------------------ B. section parsers vs the reference on every byte string
+def section_differential(section, nbytes, prefix=""):
+    """every byte string of `nbytes` bytes given to py7zr's section parser AND to the reference parser (both interpreted
+    on the same symbolic bytes): whatever the reference accepts, py7zr accepts with the same meaning"""
+    from vf.pysym.engine import BudgetExceeded, Engine
+    from vf.pysym.values import SFile
+
+    AI_, REF = "py7zr.archiveinfo", "vf.ref7z"
+    pre = list(bytes.fromhex(prefix))
+    r = ObResult(bounds="%s: %severy byte string of %d bytes (all symbolic), declared counts <= 8; py7zr's _read vs the "
+                        "reference parser written from the format description" % (
+                            section, ("the fixed bytes %s followed by " % prefix) if prefix else "", nbytes))
+    eng = Engine([AI_, REF], intmode="bv", unroll=64)
+    eng.count_budget = 8
+    bs = [eng.sym_int("b%d" % i, 8) for i in range(nbytes)]
+    stats = {"both": 0, "lenient": 0}
+
+    def ctx_folders(e, kind):
+        """SubstreamsInfo needs the folders parsed before it: two folders, 5 and 7 bytes, the second with a CRC"""
+        if kind == "py":
+            out = []
+            for sz, crc in ((5, None), (7, 0x11223344)):
+                fo = e.new(e.cls(AI_, "Folder"))
+                fo.attrs["unpacksizes"] = [sz]
+                fo.attrs["coders"] = [{"method": b"\x00", "numinstreams": 1, "numoutstreams": 1, "properties": None}]
+                fo.attrs["digestdefined"], fo.attrs["crc"] = crc is not None, crc
+                out.append(fo)
+            return out
+        return [{"coders": [], "bind": [], "packed": [0], "total_out": 1, "unpacksizes": [5], "crc": (False, 0)},
+                {"coders": [], "bind": [], "packed": [0], "total_out": 1, "unpacksizes": [7], "crc": (True, 0x11223344)}]
+
+    def harness(e):
+        f1, f2 = SFile(pre + list(bs)), SFile(pre + list(bs))
+        o = {}
+        try:
+            if section == "PackInfo":
+                o["ref"] = e.call(REF, "rd_pack_info", f2)
+            elif section == "UnpackInfo":
+                o["ref"] = e.call(REF, "rd_unpack_info", f2)
+            else:
+                o["ref"] = e.call(REF, "rd_substreams", f2, ctx_folders(e, "ref"))
+        except ModelRaise as ex:
+            o["ref_exc"] = ex.name
+        except BudgetExceeded:
+            return dict(cut=True)
+        obj = e.new(e.cls(AI_, section))
+        try:
+            if section == "SubstreamsInfo":
+                e.method(obj, "_read", f1, 2, ctx_folders(e, "py"))
+            else:
+                e.method(obj, "_read", f1)
+            o["py"] = obj
+        except ModelRaise as ex:
+            o["py_exc"] = ex.name
+        except BudgetExceeded:
+            return dict(cut=True)
+        o["pos"] = (f1.pos, f2.pos)
+        if "ref" in o and "py" in o:
+            # defined-flags are decided on this path (both parsers branched on them): make them concrete here, inside the path
+            cb = lambda v: v if isinstance(v, bool) else bool(e.branch(e.truth(v)))
+            R, P = o["ref"], o["py"].attrs
+            if section == "PackInfo":
+                R["crcs"] = [(cb(d), v) for d, v in R["crcs"]]
+                P["digestdefined"] = [cb(d) for d in P["digestdefined"]]
+            elif section == "UnpackInfo":
+                for rf in R:
+                    rf["crc"] = (cb(rf["crc"][0]), rf["crc"][1])
+                for pf in P["folders"]:
+                    pf.attrs["digestdefined"] = cb(pf.attrs.get("digestdefined", False))
+            else:
+                R["digests"] = [[(cb(d), v) for d, v in row] for row in R["digests"]]
+                P["digestsdefined"] = [cb(d) for d in P["digestsdefined"]]
+        return o
+
+    def eq(a, b):
+        return eng.compare(ast.Eq(), a, b)
+
+    def post(o):
+        if "cut" in o or "ref_exc" in o:
+            if "ref_exc" in o and "py" in o:
+                stats["lenient"] += 1
+            return None
+        if "py_exc" in o:
+            return False          # a section the format accepts is rejected
+        stats["both"] += 1
+        R, P = o["ref"], o["py"].attrs
+        c = [o["pos"][0] == o["pos"][1]]
+        if section == "PackInfo":
+            n = len(R["crcs"])
+            c += [eq(P["packpos"], R["packpos"]), eq(P["numstreams"], n)]
+            if R["sizes"]:
+                c.append(len(P["packsizes"]) == len(R["sizes"]))
+                c += [eq(a, b) for a, b in zip(P["packsizes"], R["sizes"])]
+            defined = [d for d, _ in R["crcs"]]
+            c.append(list(P["digestdefined"]) == defined if P["digestdefined"] else not any(defined))
+            vals = [v for d, v in R["crcs"] if d]
+            c.append(len(P["crcs"]) == len(vals))
+            c += [eq(a, b) for a, b in zip(P["crcs"], vals)]
+        elif section == "UnpackInfo":
+            fs = P["folders"]
+            c.append(len(fs) == len(R))
+            for pf, rf in zip(fs, R):
+                a = pf.attrs
+                c.append(len(a["coders"]) == len(rf["coders"]))
+                for pc, rc in zip(a["coders"], rf["coders"]):
+                    pm, rm = pc["method"], rc["method"]
+                    c.append(eng.compare(ast.Eq(), pm, rm) if len(eng.models._len(eng, rm) * [0]) > 0 else True)
+                    c += [eq(pc["numinstreams"], rc["nin"]), eq(pc["numoutstreams"], rc["nout"])]
+                    c.append((pc["properties"] is None) == (rc["props"] is None))
+                    if pc["properties"] is not None and rc["props"] is not None:
+                        c.append(eng.compare(ast.Eq(), pc["properties"], rc["props"]))
+                c.append(len(a["bindpairs"]) == len(rf["bind"]))
+                for pb, (ra, rb) in zip(a["bindpairs"], rf["bind"]):
+                    c += [eq(pb.attrs["incoder"], ra), eq(pb.attrs["outcoder"], rb)]
+                c.append(len(a["packed_indices"]) == len(rf["packed"]))
+                c += [eq(x, y) for x, y in zip(a["packed_indices"], rf["packed"])]
+                c.append(len(a["unpacksizes"]) == len(rf["unpacksizes"]))
+                c += [eq(x, y) for x, y in zip(a["unpacksizes"], rf["unpacksizes"])]
+                d, v = rf["crc"]
+                c.append(a["digestdefined"] == d)
+                if d:
+                    c.append(eq(a["crc"], v))
+        else:
+            counts = R["counts"]
+            c.append(len(P["num_unpackstreams_folders"]) == len(counts))
+            c += [eq(x, y) for x, y in zip(P["num_unpackstreams_folders"], counts)]
+            flat_sizes = [x for row in R["sizes"] for x in row]
+            flat_dig = [x for row in R["digests"] for x in row]
+            if P.get("unpacksizes") is not None:
+                c.append(len(P["unpacksizes"]) == len(flat_sizes))
+                c += [eq(x, y) for x, y in zip(P["unpacksizes"], flat_sizes)]
+            c.append(len(P["digestsdefined"]) == len(flat_dig))
+            for dd, dv, (rd, rv) in zip(P["digestsdefined"], P["digests"], flat_dig):
+                c.append(dd == rd)
+                if rd:
+                    c.append(eq(dv, rv))
+        return c
+
+    decide(eng, harness, post, {"b%d" % i: b for i, b in enumerate(bs)}, r, max_cex=4,
+           describe=lambda o: "cut" if "cut" in o else "ref:%s py:%s" % (o.get("ref_exc", "ok"), o.get("py_exc", "ok")))
+    r.note = (r.note + " paths accepted by both: %d; accepted by py7zr only (lenient, not a violation): %d" % (stats["both"], stats["lenient"])).strip()
+    _cex(r, "section_differential", lambda w_: dict(module="vf.props.c06", func="replay_section", kwargs=dict(
+        section=section, data=prefix + bytes(int(w_["b%d" % i]) for i in range(nbytes)).hex())),
+         signature=lambda w_: {"obligation": "section_differential", "section": section})
+    return r
+
+
+def replay_section(section, data):
+    """the same bytes through the natively executed py7zr parser and the natively executed reference"""
+    import py7zr.archiveinfo as ai
+    from vf import ref7z
+
+    raw = bytes.fromhex(data)
+
+    def folders_py():
+        out = []
+        for sz, crc in ((5, None), (7, 0x11223344)):
+            fo = ai.Folder()
+            fo.unpacksizes = [sz]
+            fo.coders = [{"method": b"\x00", "numinstreams": 1, "numoutstreams": 1, "properties": None}]
+            fo.digestdefined, fo.crc = crc is not None, crc
+            out.append(fo)
+        return out
+
+    folders_ref = [{"coders": [], "bind": [], "packed": [0], "total_out": 1, "unpacksizes": [5], "crc": (False, 0)},
+                   {"coders": [], "bind": [], "packed": [0], "total_out": 1, "unpacksizes": [7], "crc": (True, 0x11223344)}]
+    f2 = io.BytesIO(raw)
+    try:
+        R = {"PackInfo": ref7z.rd_pack_info, "UnpackInfo": ref7z.rd_unpack_info}[section](f2) if section != "SubstreamsInfo" \
+            else ref7z.rd_substreams(f2, folders_ref)
+    except Exception as e:  # noqa
+        return False, "the reference rejects these bytes too: %r" % (e,)
+    f1 = io.BytesIO(raw)
+    try:
+        if section == "PackInfo":
+            P = ai.PackInfo()._read(f1)
+            got = dict(packpos=P.packpos, n=P.numstreams, sizes=list(P.packsizes), defined=list(P.digestdefined), crcs=list(P.crcs))
+            want = dict(packpos=R["packpos"], n=len(R["crcs"]), sizes=R["sizes"] or got["sizes"],
+                        defined=[d for d, _ in R["crcs"]] if any(d for d, _ in R["crcs"]) else got["defined"],
+                        crcs=[v for d, v in R["crcs"] if d])
+        elif section == "UnpackInfo":
+            P = ai.UnpackInfo()
+            P._read(f1)
+            got = [dict(coders=[(c["method"], c["numinstreams"], c["numoutstreams"], c["properties"]) for c in fo.coders],
+                        bind=[(b.incoder, b.outcoder) for b in fo.bindpairs], packed=list(fo.packed_indices),
+                        sizes=list(fo.unpacksizes), crc=(bool(fo.digestdefined), fo.crc if fo.digestdefined else 0)) for fo in P.folders]
+            want = [dict(coders=[(c["method"] or b"\x00", c["nin"], c["nout"], c["props"]) for c in fo["coders"]], bind=list(fo["bind"]),
+                         packed=list(fo["packed"]), sizes=list(fo["unpacksizes"]), crc=(fo["crc"][0], fo["crc"][1] if fo["crc"][0] else 0)) for fo in R]
+        else:
+            P = ai.SubstreamsInfo()
+            P._read(f1, 2, folders_py())
+            flat_dig = [x for row in R["digests"] for x in row]
+            got = dict(counts=list(P.num_unpackstreams_folders), sizes=list(P.unpacksizes) if P.unpacksizes is not None else None,
+                       digests=[(bool(d), v if d else 0) for d, v in zip(P.digestsdefined, P.digests)])
+            want = dict(counts=R["counts"], sizes=[x for row in R["sizes"] for x in row] if P.unpacksizes is not None else None,
+                        digests=[(bool(d), v if d else 0) for d, v in flat_dig])
+    except Exception as e:  # noqa
+        return True, "%s bytes %s: accepted by the reference (%s), py7zr raises %r" % (section, data, R, e)
+    if f1.tell() != f2.tell():
+        return True, "%s bytes %s: py7zr consumed %d bytes, the reference %d" % (section, data, f1.tell(), f2.tell())
+    return got != want, "%s bytes %s: py7zr %s, reference %s" % (section, data, got, want)
+
+
 def units(tier):
     M = "vf.props.c06"
     us = []
     shapes = RC.shapes(tier) + (QUICK_EXTRA if tier == "quick" else [])
+    for sec, ns in (("PackInfo", (6,) if tier == "quick" else (6, 8, 10)), ("UnpackInfo", (5,) if tier == "quick" else (5, 7)),
+                    ("SubstreamsInfo", (4, 6) if tier == "quick" else (4, 7, 9))):
+        for n in ns:
+            us.append(Unit("B.section_differential[%s,%d bytes]" % (sec, n), M, "section_differential", dict(section=sec, nbytes=n), 3000))
+    # the tail of UnpackInfo (unpack sizes are fixed, the CRC property and the end are free): two folders of one coder each
+    UPRE = "0b0200" + "010100" + "010100" + "0c0507"
+    for n in ((4, 10, 13) if tier == "quick" else (2, 4, 7, 10, 13, 14)):
+        us.append(Unit("B.section_differential[UnpackInfo,2 folders + %d bytes]" % n, M, "section_differential",
+                       dict(section="UnpackInfo", nbytes=n, prefix=UPRE), 3000))
+    # PackInfo with sizes fixed and the digest part free
+    for n in ((3, 7, 11) if tier == "quick" else (3, 7, 11, 12, 13)):
+        us.append(Unit("B.section_differential[PackInfo,2 streams + %d bytes]" % n, M, "section_differential",
+                       dict(section="PackInfo", nbytes=n, prefix="0002090507"), 3000))
     for (p, f, o) in shapes:
         us.append(Unit("L.listing[%s]" % RC.shape_name(p, f, o), M, "listing", dict(pattern=p, folders=f, opts=o), 900))
     for (p, f, o) in shapes:
